@@ -328,9 +328,10 @@ func (f *OrefaFile) ReadDir(n int) ([]fs.DirEntry, error) {
 		return nil, io.EOF
 	}
 
-	end := start + n
-	if end > len(f.dirEntries) {
-		end = len(f.dirEntries)
+	// n can be as large as math.MaxInt : it is compared with what is left before being added to start.
+	end := len(f.dirEntries)
+	if n < end-start {
+		end = start + n
 	}
 
 	f.dirIndex = end
@@ -405,9 +406,10 @@ func (f *OrefaFile) Readdirnames(n int) (names []string, err error) {
 		return nil, io.EOF
 	}
 
-	end := start + n
-	if end > len(f.dirNames) {
-		end = len(f.dirNames)
+	// n can be as large as math.MaxInt : it is compared with what is left before being added to start.
+	end := len(f.dirNames)
+	if n < end-start {
+		end = start + n
 	}
 
 	f.dirIndex = end
